@@ -38,6 +38,7 @@
 # include "config.h"
 #endif	/* HAVE_CONFIG_H */
 #include <stdlib.h>
+#include <limits.h>
 #include <string.h>
 #include "evrrul.h"
 #include "nifty.h"
@@ -249,7 +250,7 @@ get_isowk(unsigned int y)
 	return 52;
 }
 
-static unsigned int
+static int
 ywd_get_yday(unsigned int y, int w, int d)
 {
 /* since everything is in ISO 8601 format, getting the doy is a matter of
@@ -261,7 +262,11 @@ ywd_get_yday(unsigned int y, int w, int d)
 	if (UNLIKELY(w < 0)) {
 		w += 1 + get_isowk(y);
 	}
-	return 7U * (w - 1) + d + hang;
+	if (UNLIKELY(w <= 0 || w > (int)get_isowk(y))) {
+		/* there's no such week in Y */
+		return INT_MIN;
+	}
+	return 7 * (w - 1) + d + hang;
 }
 
 static struct md_s
@@ -302,21 +307,6 @@ yd_to_md(unsigned int y, int doy)
 	}
 	return (struct md_s){m, d};
 #undef GET_REM
-}
-
-static struct md_s
-ywd_to_md(unsigned int y, int w, echs_wday_t d)
-{
-	unsigned int yday = ywd_get_yday(y, w, d);
-	struct md_s res = yd_to_md(y, yday);
-
-	if (UNLIKELY(res.m == 0)) {
-		res.m = 12;
-		res.d--;
-	} else if (UNLIKELY(res.m == 13)) {
-		res.m = 1;
-	}
-	return res;
 }
 
 static unsigned int
@@ -473,13 +463,32 @@ fill_yly_ywd(
 			struct md_s md;
 			echs_wday_t wd;
 
+			const int nyd = 365 + !(y % 4U);
+			size_t which = 0U;
+			int yd;
+
 			if (dc <= MIR || (wd = (echs_wday_t)dc) > SUN) {
 				continue;
-			} else if (!(md = ywd_to_md(y, wk, wd)).m) {
+			} else if ((yd = ywd_get_yday(y, wk, wd)) == INT_MIN) {
+				continue;
+			} else if (yd <= 0) {
+				/* week 1 reaches back into the previous year */
+				yd += 365 + !((y - 1U) % 4U);
+				md = yd_to_md(y - 1U, yd);
+				which = 1U;
+			} else if (yd > nyd) {
+				/* the last week reaches into the next year */
+				md = yd_to_md(y + 1U, yd - nyd);
+				which = 2U;
+			} else {
+				md = yd_to_md(y, yd);
+			}
+			if (UNLIKELY(!md.m || md.m > 12U)) {
 				continue;
 			}
-			/* otherwise it's looking good */
-			ass_bi383(cand, pack_cand(md.m, md.d));
+			/* otherwise it's looking good,
+			 * slots 1 and 2 are the neighbouring years */
+			ass_bi383(cand + which, pack_cand(md.m, md.d));
 		}
 	}
 	return;
